@@ -287,6 +287,91 @@ def body_timed(case, ctx):
     ctx.event("prior-samples=%d" % case.get("pre_steps", 0))
 
 
+# ------------------------------------------------------------------ timed run of a tempering ladder (virtual parent-side clock)
+@st.composite
+def timed_pt_cases(draw):
+    n = draw(st.integers(2, 3))
+    d = draw(st.integers(1, 2))
+    return {"seed": draw(st.integers(0, 2**31)), "d": d, "n_chains": n,
+            "target": {"kind": "gauss", "d": d, "mean": [0.0] * d, "chol": [[1.0 if i == j else 0.0 for j in range(d)] for i in range(d)]},
+            "start_u": [[draw(st.floats(-1, 1)) for _ in range(d)] for _ in range(n)],
+            "cost_log": draw(st.one_of(st.floats(-3, 2), st.sampled_from([-0.5, 0.0, 0.5, 1.0]))),
+            "swap_interval": draw(st.sampled_from([1, 2, 3, 10])),
+            "cycles_log": draw(st.floats(-0.7, 2.3)), "unit": draw(st.sampled_from(["minutes", "hours", "mixed"]))}
+
+
+def body_timed_pt(case, ctx):
+    import inference.mcmc.parallel as par
+    from inference.mcmc import ParallelTempering
+    from vlib.targets import Target
+
+    rngctl.reset(case["seed"])
+    chains = []
+    for k in range(case["n_chains"]):
+        cfg = {"seed": case["seed"] + k, "cls": "gibbs", "d": case["d"], "target": case["target"], "start_u": case["start_u"][k],
+               "width_log": [0.0] * case["d"], "T": 1.0 + 2.0 * k, "bounds": None, "display_progress": False, "limits": [], "limit_half": [1.0] * case["d"]}
+        chains.append(S.build(cfg, target=Target(case["target"], record=False))[0])
+    cost = 10.0 ** case["cost_log"]
+    si = case["swap_interval"]
+    cycle = cost * si
+    budget = max(cycle * 10.0 ** case["cycles_log"], 0.05)
+    kw = {"minutes": budget / 60.0} if case["unit"] == "minutes" else ({"hours": budget / 3600.0} if case["unit"] == "hours" else
+                                                                       {"minutes": budget / 120.0, "hours": budget / 7200.0})
+    clock = VirtualClock()
+    with warnings.catch_warnings():
+        warnings.simplefilter("ignore")
+        pt = ParallelTempering(chains=chains)
+    try:
+        real_take = pt.take_steps
+        taken = [0]
+
+        def take_steps(n):          # the steps are taken by the worker processes; the parent's clock moves by their cost
+            real_take(n)
+            taken[0] += n
+            clock.advance(n * cost)
+
+        pt.take_steps = take_steps
+        saved = par.time
+        par.time = clock.time
+        t0 = clock.t
+        try:
+            with warnings.catch_warnings(), np.errstate(all="ignore"):
+                warnings.simplefilter("ignore")
+                pt.run_for(swap_interval=si, **kw)
+        except Livelock:
+            raise Violation("timed-livelock:tempering", f"ParallelTempering.run_for read the clock 1000 times in a row without taking a step (step cost {cost:.3g} s, "
+                                                        f"swap_interval {si}, budget {budget:.4g} s, {taken[0]} steps taken, {clock.t - t0:.4g} s elapsed)")
+        finally:
+            par.time = saved
+        elapsed = clock.t - t0
+        out = pt.return_chains()
+        pt.shutdown()
+    finally:
+        pt.shutdown_evt.set()
+        for p in pt.processes:
+            p.join(timeout=2)
+            if p.is_alive():
+                p.terminate()
+    if taken[0] < 1:
+        raise Violation("timed-no-step:tempering", "run_for returned without taking a step")
+    if elapsed < budget * (1 - 1e-9):
+        raise Violation("timed-early:tempering", f"run_for returned after {elapsed:.6g} s of a {budget:.6g} s budget ({taken[0]} steps of {cost:.3g} s, swap_interval {si})")
+    # "and then stops": at most the progress group in flight (cycles worth about two seconds, or one cycle if slower) beyond the budget
+    allowance = 3 * (max(cycle, 2.0) + cycle) + 0.25 * budget
+    if elapsed - budget > allowance:
+        raise Violation("timed-overshoot:tempering", f"budget {budget:.4g} s, ran {elapsed:.4g} s ({taken[0]} steps of {cost:.3g} s, swap_interval {si})")
+    lens = [int(c.chain_length) for c in out]
+    if any(n != 1 + taken[0] for n in lens):
+        raise Violation("timed-lengths:tempering", f"{taken[0]} steps were requested of every chain, chain lengths are {lens}")
+    for c in out:
+        s_, p_ = readouts(c)
+        if s_.shape[0] != c.chain_length or p_.shape[0] != c.chain_length:
+            raise Violation("timed-lengths:tempering", f"chain_length {c.chain_length}, samples {s_.shape}, probabilities {p_.shape}")
+    ctx.nontrivial(cycle > 2.0 and budget / cycle > 3)
+    ctx.event("cycle>2s" if cycle > 2.0 else "cycle<=2s")
+    ctx.event("budget<1cycle" if budget < cycle else "budget>=1cycle")
+
+
 SUBCHECKS = [
     Sub("counts", lambda t: history_cases(), body_counts, quick=400, thorough=8000, shards_quick=16, shards_thorough=16, weight=5,
         rule="history with m=0, an m<100 and a non-multiple >=100 (ensemble: a 0-iteration advance among >=3 operations)"),
@@ -298,4 +383,6 @@ SUBCHECKS = [
         rule="step cost > 1 virtual second with a budget worth > 20 steps"),
     Sub("timed", lambda t: timed_cases(), body_timed, quick=600, thorough=20000, shards_quick=8, shards_thorough=16,
         rule="step cost > 1 virtual second with a budget worth > 20 steps"),
+    Sub("timed-tempering", lambda t: timed_pt_cases(), body_timed_pt, quick=48, thorough=1500, shards_quick=16, shards_thorough=16, weight=80,
+        rule="swap cycle costing > 2 virtual seconds with a budget worth > 3 cycles"),
 ]
